@@ -164,6 +164,29 @@ def r_add_bad_name(api):
                 return None
             op['iso_path'] = ex[0]
             return ('dup-iso-relocated', op, False)
+        if which == 'parent-is-file':
+            files = [p for p, n in m.ns['iso'].items() if n.kind == 'file' and n.cid is not None and m.depth(p) < 6]
+            if not files:
+                return None
+            name = op['iso_path'].rsplit('/', 1)[1]
+            op['iso_path'] = files[0] + '/' + name
+            for k in ('joliet_path', 'udf_path'):
+                op.pop(k, None)
+            return ('parent-is-a-file', op, False)
+        if which == 'reloc-name-taken':
+            # the name of the relocation directory is in use by a directory of the user
+            if not cfg.rr or cfg.level == 4 or api != 'add_directory' or m.relocation_active():
+                return None
+            if '/RR_MOVED' not in m.ns['iso']:
+                return None
+            deep = [d for d in m.dirs('iso') if m.depth(d) == 7]
+            if not deep:
+                return None
+            name = op['iso_path'].rsplit('/', 1)[1]
+            op['iso_path'] = join(deep[0], name)
+            for k in ('joliet_path', 'udf_path'):
+                op.pop(k, None)
+            return ('relocation-name-taken', op, False)
         if which == 'file-mode-plain':
             if cfg.rr:
                 return None
@@ -431,6 +454,8 @@ def r_state(g, m, which):
         if not m.cfg.rr:
             return ('set_relocated_name-on-non-rr', {'op': 'set_relocated_name', 'name': 'XX', 'rr_name': 'xx'}, False)
         return None
+    if which == 'new-bad-args':
+        return ('new-refused-then-new', {'op': 'x_new_bad'}, False)
     if which == 'query-missing':
         return ('query-missing-path', {'op': 'q_get_record', 'key': 'iso_path', 'path': '/NOSUCH%d.;1' % g._u()}, False)
     if which == 'read-dir':
@@ -448,8 +473,10 @@ for api in ('add_fp', 'add_directory'):
         RECIPES.append((api, r_add_missing_parent(api), w))
     for w in ('iso', 'joliet', 'rr-missing', 'rr-slash', 'rr-on-plain', 'joliet-on-plain', 'udf-on-plain', 'depth', 'rr-too-long', 'rr-dup', 'file-mode-plain'):
         RECIPES.append((api, r_add_bad_name(api), w))
-for w in ('rr-too-long-reloc', 'iso-dup-reloc'):
+for w in ('rr-too-long-reloc', 'iso-dup-reloc', 'reloc-name-taken'):
     RECIPES.append(('add_directory', r_add_bad_name('add_directory'), w))
+for api in ('add_fp', 'add_directory'):
+    RECIPES.append((api, r_add_bad_name(api), 'parent-is-file'))
 for w in ('missing', 'dir', 'boot', 'udf-missing'):
     RECIPES.append(('rm_file', r_rm_file, w))
 for w in ('non-empty', 'missing', 'root', 'file', 'second-missing-joliet', 'second-missing-udf', 'second-nonempty-joliet', 'second-nonempty-udf'):
@@ -465,7 +492,7 @@ for w in ('missing-boot-file', 'rm-without', 'bad-media', 'floppy-size', 'hdemul
     RECIPES.append(('add_eltorito', r_eltorito, w))
 for w in ('without-eltorito', 'bad-geometry', 'mac-without-efi', 'bad-part-entry'):
     RECIPES.append(('add_isohybrid', r_isohybrid, w))
-for w in ('new-twice', 'open-twice', 'relocated-name', 'query-missing', 'read-dir'):
+for w in ('new-twice', 'open-twice', 'relocated-name', 'query-missing', 'read-dir', 'new-bad-args'):
     RECIPES.append(('state', r_state, w))
 
 
@@ -477,6 +504,25 @@ def do_step(sess, op):
             return driver.Outcome(True)
         except Exception as e:
             return driver.Outcome(False, type(e).__name__, str(e), driver.innermost_pycdlib_frame(e))
+    if op['op'] == 'x_new_bad':
+        # a fresh object: new() refused for one argument, then a plain new() and an edit that is
+        # legal on a plain image.  (Independent of the session: the outcome of the *sequence* is
+        # what counts, reported as a refusal whose residue shows in the follow-up.)
+        import io, pycdlib
+        o = pycdlib.PyCdlib()
+        try:
+            o.new(rock_ridge='1.09', joliet=3, vol_ident='X' * 40)
+            return driver.Outcome(True)
+        except Exception as e:
+            first = driver.Outcome(False, type(e).__name__, str(e), driver.innermost_pycdlib_frame(e))
+        try:
+            o.new()
+            o.add_fp(io.BytesIO(b'x'), 1, '/A.;1')
+            o.write_fp(io.BytesIO())
+            o.close()
+        except Exception as e:
+            return driver.Outcome(False, 'residue-of-refused-new:%s' % type(e).__name__, str(e), driver.innermost_pycdlib_frame(e))
+        return first
     if op['op'] == 'x_open':
         import io
         try:
@@ -545,6 +591,8 @@ def check(cfg, ops, seed, inject_at, bad, api, cause, counters):
         counters['not_refused:%s:%s' % (api, cause)] = 1
         return vio, False
     counters['refusals_injected'] = counters.get('refusals_injected', 0) + 1
+    if (refusal.exc_class or '').startswith('residue-of-refused-new'):
+        return [{'key': '%s:%s:later-differs' % (api, cause), 'detail': 'after new() was refused (bad volume identifier), a plain new() + add_fp + write on the same object failed: %s: %s' % (refusal.exc_class, refusal.exc_msg)}], True
     counters['refused:%s' % refusal.exc_class] = counters.get('refused:%s' % refusal.exc_class, 0) + 1
     counters['twin_images_compared'] = counters.get('twin_images_compared', 0) + 2
     base = '%s:%s' % (api, cause)
@@ -576,7 +624,7 @@ def run_case(i, seed, tier):
             return False
         if which in ('rr-missing', 'rr-slash', 'rr-too-long', 'rr-dup') and not c.rr:
             return False
-        if which in ('rr-too-long-reloc', 'iso-dup-reloc') and (not c.rr or c.level == 4):
+        if which in ('rr-too-long-reloc', 'iso-dup-reloc', 'reloc-name-taken') and (not c.rr or c.level == 4):
             return False
         if which in ('rr-on-plain', 'file-mode-plain') and c.rr:
             return False
@@ -591,7 +639,18 @@ def run_case(i, seed, tier):
         return True
     cfg = g.cfg(index=(i // len(RECIPES)) + seed * 41, require=cfg_ok)
     # history
-    if api in ('add_eltorito', 'add_isohybrid') and which not in ('missing-boot-file', 'rm-without', 'without-eltorito') and (which == '32nd' or rng.random() < 0.5):
+    if api == 'add_isohybrid' and which in ('bad-geometry', 'mac-without-efi', 'bad-part-entry'):
+        # the boot file must carry the isohybrid signature, or the call is refused before its
+        # parameters are looked at: the El Torito part of a hybrid history, without the hybrid call
+        from harness.props import c12
+        cfg, hops = c12.build(cs, valid_only=True)
+        cut = next((k for k, o in enumerate(hops) if o['op'] == 'add_isohybrid'), len(hops))
+        h = common.History(cfg, cs, 'std', max_size=3000)
+        for o in hops[:cut]:
+            if o['op'] not in ('reopen', 'force_consistency', 'q_write'):
+                h.apply(o)
+        h.extend(rng.choice([0, 2]))
+    elif api in ('add_eltorito', 'add_isohybrid') and which not in ('missing-boot-file', 'rm-without', 'without-eltorito') and (which == '32nd' or rng.random() < 0.5):
         from harness.props import c11
         h = common.History(cfg, cs, 'std', max_size=3000)
         h.extend(rng.choice([2, 6]))
@@ -603,7 +662,9 @@ def run_case(i, seed, tier):
         h.extend(rng.choice([0, 3]))
     else:
         h = common.History(cfg, cs, rng.choice(['std', 'grow', 'churn']), max_size=3000, max_depth=7 if which == 'depth' else None)
-        if which in ('depth', 'rr-too-long-reloc', 'iso-dup-reloc'):
+        if which == 'reloc-name-taken':
+            h.apply({'op': 'add_directory', 'iso_path': '/RR_MOVED', 'rr_name': 'users-own'})
+        if which in ('depth', 'rr-too-long-reloc', 'iso-dup-reloc', 'reloc-name-taken'):
             p = ''
             for d in range(7):
                 p = p + '/' + h.gen.iso_dir_name(cfg.level)
@@ -615,7 +676,7 @@ def run_case(i, seed, tier):
     ops = list(h.ops)
     h.sess.close()
     # injection point and instantiation against the model state at that point
-    inject_at = rng.randint(max(0, len(ops) - 6), len(ops)) if which in ('32nd', 'depth', 'rr-too-long-reloc', 'iso-dup-reloc') else rng.randint(0, len(ops))
+    inject_at = rng.randint(max(0, len(ops) - 6), len(ops)) if which in ('32nd', 'depth', 'rr-too-long-reloc', 'iso-dup-reloc', 'reloc-name-taken') else rng.randint(0, len(ops))
     if api != 'state' and inject_at >= 2 and rng.random() < 0.25:
         # the refusal hits an object that opened a mastered image (parsed state)
         ops.insert(rng.randint(1, inject_at), {'op': 'reopen'})
